@@ -1,8 +1,8 @@
 ------------------------------- MODULE RateLimit -------------------------------
-(* ratelimit/listener.go + conn.go + ratelimit.go for ONE direction of one      *)
+(* (C20) ratelimit/listener.go + conn.go + ratelimit.go for ONE direction of one *)
 (* listener: a token bucket shared by all accepted connections; every Read/Write *)
 (* moves its bytes first and then calls WaitN for them (post-paid).              *)
-EXTENDS Integers, FiniteSets, TLC
+EXTENDS Integers, FiniteSets, TLC, Json
 
 CONSTANTS Conns, Burst, R, Chunk, Horizon,
           PerConn,   \* mutant: one limiter per connection instead of per listener
@@ -42,4 +42,12 @@ Spec == Init /\ [][Next]_vars
 \* over any window the bytes moved stay within burst + R*elapsed, plus at most one
 \* post-paid chunk per connection
 RateBound == moved - wMoved <= Burst + R * (now - wStart) + Cardinality(Conns) * Chunk
+
+(* ---------------- configurations replayed against real listeners ---------------- *)
+\* --read-limit throttles proxy->client (downloads), --write-limit client->proxy (uploads); 0 = none
+Limits == {0, 4, 8}                     \* MiB/s
+Cases == [read : Limits, write : Limits, conns : 1..3, dir : {"download", "upload"}, kind : {"plain", "tunnel"}]
+LimitFor(c) == IF c.dir = "download" THEN c.read ELSE c.write
+Expect(c) == [limited |-> LimitFor(c) # 0, rate |-> LimitFor(c)]
+EmitCases == \A c \in Cases : PrintT(ToJson([c |-> c, exp |-> Expect(c)]))
 ==============================================================================
